@@ -287,6 +287,7 @@ harnesses! {
     h_bucket_mask_to_capacity,
     h_calculate_layout_for,
     h_table_layout_new,
+    h_bucket_index,
     h_move_next,
     h_h1,
     #[kani::unwind(66)] h_probe_cycle,
